@@ -127,6 +127,8 @@ class PackerResult(Spec):
             directory(cc)[PACK] = 'PACKED'
             idx = prims.new_map(cc, 'bytes8', 'int', 'packed_index', sorted_=True,
                                 cls='ZODB.fsIndex:fsIndex')
+            cc.obj(idx).f['size'] = z3.Int(fresh_name('len_packed_index'))
+            cc.assume(cc.obj(idx).f['size'] >= 0)
             cc.ghost['packed'] = (cc.fresh_int('opos'), idx)
             cc.event('packer-returned-holding-the-commit-lock')
             return VTuple([cc.ghost['packed'][0], idx])
@@ -331,5 +333,24 @@ class FSPack(Spec):
         return out
 
 
+class FSPackOidCounter(FSPack):
+    """C20 side of FileStorage.pack: the swap installs the packer's index and end position but must
+    not touch the oid counter (_oid stays >= every id ever issued; the packed index may have LOST the
+    largest ids to garbage collection, so re-deriving the counter from it would re-issue ids).
+    Only the frame obligations of this exploration count (posts and crash obligations are C08's)."""
+    props = ('C20',)
+    callable_contract = False
+    label = 'oid-counter'
+    cases = ('run', 'run-blobs')
+
+    def outcomes(self, c, E):
+        return [Outcome('any-return'), Outcome('any-raise', 'raise', 'builtins:Exception')]
+
+    def at_exit(self, c, E, kind, val):
+        h = ghost_of(c, E['self'])
+        return [('oid-counter-untouched', contract.same_value(c, h.oid, c.obj(h.self).f['_oid']))]
+
+
 SPECS = [PackerResult, RemoveBlobFiles, SaveIndexCall, FSPack]
+VARIANTS = [FSPackOidCounter]
 INLINE = [FSQ + ':FileStorage._initIndex']
